@@ -1,6 +1,7 @@
 package rules
 
 import (
+	"fmt"
 	"go/types"
 
 	"golang.org/x/tools/go/ssa"
@@ -136,4 +137,106 @@ func pairedSlices(fn *ssa.Function) map[ssa.Value]ssa.Value {
 		}
 	}
 	return rep
+}
+
+// Counted slices. A slice φ p of a loop header whose back-edge values are all "p extended by
+// exactly one element" (append(p, x), or a merge of such appends: every path through the body
+// appends once), next to an integer φ q of the same header whose back-edge values are all q + 1,
+// keeps len(p) - q constant over the loop: len(p) - q = len(p0) - q0 for the entry values p0, q0.
+// `for i := 0; i < n; i++ { s = append(s, v) }` thus gives len(s) = i in the loop and after it.
+func (lc *linCtx) countedFacts(p *ssa.Phi) []cons {
+	if _, isSlice := p.Type().Underlying().(*types.Slice); !isSlice {
+		return nil
+	}
+	h := p.Block()
+	if !hasBackEdge(h) {
+		return nil
+	}
+	var grown func(v ssa.Value, depth int) bool
+	grown = func(v ssa.Value, depth int) bool {
+		if depth > 8 {
+			return false
+		}
+		if base, ok := appendOne(v); ok {
+			return base == ssa.Value(p)
+		}
+		if q, ok := v.(*ssa.Phi); ok && q != p && !hasBackEdge(q.Block()) && h.Dominates(q.Block()) {
+			for _, e := range q.Edges {
+				if !grown(e, depth+1) {
+					return false
+				}
+			}
+			return len(q.Edges) > 0
+		}
+		return false
+	}
+	var len0 *lin
+	for k, e := range p.Edges {
+		if h.Dominates(h.Preds[k]) {
+			if !grown(e, 0) {
+				return nil
+			}
+			continue
+		}
+		l := lc.lenOf(e)
+		if len0 != nil && !len0.equal(l) {
+			return nil
+		}
+		len0 = &l
+	}
+	if len0 == nil {
+		return nil
+	}
+	var out []cons
+	lp := lc.lenOf(p)
+	for _, in := range h.Instrs {
+		q, ok := in.(*ssa.Phi)
+		if !ok {
+			break
+		}
+		if !isIntType(q.Type()) || len(q.Edges) != len(p.Edges) {
+			continue
+		}
+		atom := q.Name() + "@" + shortFn(q)
+		var q0 *lin
+		okQ := true
+		var stepped func(v ssa.Value, depth int) bool
+		stepped = func(v ssa.Value, depth int) bool {
+			if depth > 8 {
+				return false
+			}
+			if m, ok := v.(*ssa.Phi); ok && m != q && !hasBackEdge(m.Block()) && h.Dominates(m.Block()) {
+				for _, e := range m.Edges {
+					if !stepped(e, depth+1) {
+						return false
+					}
+				}
+				return len(m.Edges) > 0
+			}
+			l := lc.of(v)
+			return len(l.t) == 1 && l.t[atom] == 1 && l.c == 1
+		}
+		for k, e := range q.Edges {
+			if h.Dominates(h.Preds[k]) {
+				if !stepped(e, 0) {
+					okQ = false
+				}
+				continue
+			}
+			l := lc.of(e)
+			if q0 != nil && !q0.equal(l) {
+				okQ = false
+			}
+			q0 = &l
+		}
+		if !okQ || q0 == nil {
+			continue
+		}
+		// len(p) - q = len0 - q0
+		lhs := lp.sub(linAtom(atom))
+		rhs := len0.sub(*q0)
+		why := fmt.Sprintf("%s grows by one element and %s by one in every iteration", lc.canon(p), atom)
+		out = append(out, consLE(lhs, rhs, why), consLE(rhs, lhs, why))
+	}
+	return out
 }
